@@ -118,9 +118,14 @@ func (e *Engine) newCtx(key string) *FuncCtx {
 						if bl, ok := ast.Unparen(a).(*ast.BasicLit); ok && bl.Kind == token.STRING {
 							if sv, err := strconv.Unquote(bl.Value); err == nil && sv == cl.Lit {
 								hits = append(hits, ce)
-								break
+								return true
 							}
 						}
+					}
+					// ... or whose argument list reads exactly like the text (locals
+					// under their recorded names, so a pure renaming keeps the address)
+					if c.argText(ce) == cl.Lit {
+						hits = append(hits, ce)
 					}
 					return true
 				})
@@ -581,6 +586,52 @@ func (e *Engine) calleeKeyOf(ce *ast.CallExpr) string {
 	return ""
 }
 
+// argText: the argument list of a call as source text, identifiers that are
+// renamed locals written under their baseline names.
+func (c *FuncCtx) argText(ce *ast.CallExpr) string {
+	back := map[string]string{}
+	for old, cur := range c.renames {
+		back[cur] = old
+	}
+	var parts []string
+	for _, a := range ce.Args {
+		t := types.ExprString(a)
+		if len(back) > 0 {
+			// token-wise replacement of identifiers
+			var b strings.Builder
+			i := 0
+			for i < len(t) {
+				ch := t[i]
+				if ch == '_' || ch >= 'a' && ch <= 'z' || ch >= 'A' && ch <= 'Z' {
+					j := i
+					for j < len(t) && (t[j] == '_' || t[j] >= 'a' && t[j] <= 'z' || t[j] >= 'A' && t[j] <= 'Z' || t[j] >= '0' && t[j] <= '9') {
+						j++
+					}
+					w := t[i:j]
+					if i > 0 && t[i-1] == '.' {
+						b.WriteString(w) // a field or method name, not a local
+					} else if o, ok := back[w]; ok {
+						b.WriteString(o)
+					} else {
+						b.WriteString(w)
+					}
+					i = j
+					continue
+				}
+				b.WriteByte(ch)
+				i++
+			}
+			t = b.String()
+		}
+		parts = append(parts, t)
+	}
+	r := strings.Join(parts, ", ")
+	if ce.Ellipsis.IsValid() {
+		r += "..."
+	}
+	return r
+}
+
 // atCall runs the "at call K #n" clauses attached to this call site.
 func (c *FuncCtx) atCall(st *State, x *ast.CallExpr) {
 	if c.contract == nil || c.inSpec(st) || c.inlineDepth > 0 {
@@ -607,7 +658,9 @@ func (c *FuncCtx) atCall(st *State, x *ast.CallExpr) {
 					name += fmt.Sprintf(".%d", nth)
 				}
 				c.oblige(st, "assert", name, x.Pos(), v.S, cl.Tags, "at call "+key+": "+cl.Text)
-				st.assume(v.forAssume())
+				if !cl.CheckOnly {
+					st.assume(v.forAssume())
+				}
 			}
 		}
 	}
